@@ -83,7 +83,8 @@ def rule_who(ctx: Ctx):
                 sites.append((fn, n))
     rep.floor("C11.who", "constructions of the initial trigger", len(sites), 1)
     for fn, n in sites:
-        rep.check(fn.qualname == "BaseEngine.start", "C11.who", fn.loc(n), "the `__initial__` trigger is created only by start()", fn.key, norm_stmt(n))
+        ok_site = fn.qualname == "BaseEngine.start" or (ctx.is_new(fn) and g.only_reached_through(fn, {"start"}, {c.name for c in [k.base] + k.engines})[0])
+        rep.check(ok_site, "C11.who", fn.loc(n), "the `__initial__` trigger is created only by start()", fn.key, norm_stmt(n))
     starts = [k.base.method("start")] + [e.method("start") for e in k.engines if e.method("start") is not None]
     n_callers = 0
     for s in [x for x in starts if x is not None]:
